@@ -25,6 +25,15 @@ func genC26(r *Rand, idx int, tier string) Case {
 		// one-entry pages stay in the thorough tier and in stream C26x)
 		nent = PickInt(r, 0, 1, 2, 3, 5, 8, 13, 20)
 	}
+	// one case in ten: a big directory read with big limits (few pages, so the terms stay small): a server-side cap on
+	// the entries per reply must still end with eof only at the end of the directory
+	big := r.Chance(10)
+	if big {
+		nent = PickInt(r, 129, 150, 300)
+		if tier == "quick" {
+			nent = PickInt(r, 129, 150)
+		}
+	}
 	lens := []int{1, 2, 3, 4, 5, 7, 8, 63, 64, 254, 255}
 	var names []string
 	for i := 0; i < nent; i++ {
@@ -64,12 +73,19 @@ func genC26(r *Rand, idx int, tier string) Case {
 	if tier == "quick" {
 		ntrav = 2 + r.Intn(3)
 	}
+	if big {
+		ntrav = 2
+	}
 	for t := 0; t < ntrav; t++ {
 		plus := r.Bool()
 		// limits hitting every size residue: header is 100 bytes, entries 24+pad(len) (+104 for plus), trailer 8
 		limit := uint32(PickInt(r, 0, 50, 100, 108, 131, 132, 133, 140, 160, 200, 236, 240, 300, 400, 512, 700, 1000, 4096, 9000, 100+r.Intn(900)))
 		// dircount (READDIRPLUS): a hint; whatever the client says the traversal must still be complete
 		dircount := uint32(PickInt(r, 4096, 4096, 0, 1, 8, 23, 24, 100, 512, 1<<20))
+		if big {
+			limit = uint32(PickInt(r, 32768, 65536, 1<<20))
+			s.Tags["big-directory-traversals"]++
+		}
 		cookie := uint64(0)
 		pages := 0
 		for guard := 0; guard < 60; guard++ {
